@@ -1,6 +1,6 @@
 (* Theorems about the relay LTS: step-level facts (direct), the invariant over
    all action sequences, and the property statements derived from it. *)
-From Bifrost Require Import Lib.Base SignalRelay.Model SignalRelay.Inv SignalRelay.PresL.
+From Bifrost Require Import Lib.Base SignalRelay.Model SignalRelay.Inv SignalRelay.PresL SignalRelay.PresS.
 Local Open Scope nat_scope.
 
 (* ---------------------------------------------------------------- *)
@@ -119,4 +119,249 @@ Proof.
   destruct (Nat.eqb_spec seq 0); cbn; try (apply X; auto).
   destruct (Nat.eqb_spec dst src); cbn; try (apply X; auto).
   exfalso. apply Hv. exists dst. auto.
+Qed.
+
+(* ---------------------------------------------------------------- *)
+(* consequences of the invariant                                     *)
+(* ---------------------------------------------------------------- *)
+
+(* C20: whatever a stream received as RecvMsg was verified and is signed by the
+   identity this stream's session is with *)
+Lemma forwarded_authentic st q m : Inv st ->
+  In (SRecv m) (sc_out (scalls st q)) -> m_ver m = true /\ m_from m = sc_dst (scalls st q).
+Proof. intros H. apply (iD4 _ H). Qed.
+
+Lemma boxed_authentic st q m : Inv st -> alive (sc_st (scalls st q)) = true ->
+  mb_recv (sbox st q) = Some m -> m_ver m = true /\ m_from m = sc_dst (scalls st q).
+Proof. intros H. apply (iD3 _ H). Qed.
+
+(* C20: a SendMsg changes a mailbox only if it is authentic, carries the current
+   epoch and comes from the call registered on its side; the mailbox is then the
+   one of the call on the other side of the sender's session, whose peer is the
+   sender's destination and whose destination is the sender *)
+Lemma send_routing st c seq m d : Inv st -> alive (sc_st (scalls st c)) = true ->
+  sbox (sess_req c seq (RSend m) st) d <> sbox st d ->
+  m_ver m = true /\ m_from m = sc_src (scalls st c) /\ seq = epoch_of st c /\
+  side (ses st (sc_s (scalls st c))) (sc_isA (scalls st c)) = Some c /\
+  side (ses st (sc_s (scalls st c))) (negb (sc_isA (scalls st c))) = Some d /\
+  sc_src (scalls st d) = sc_dst (scalls st c) /\ sc_dst (scalls st d) = sc_src (scalls st c) /\
+  mb_recv (sbox (sess_req c seq (RSend m) st) d) = Some m /\
+  mb_gep (sbox (sess_req c seq (RSend m) st) d) = seq.
+Proof.
+  intros H Hal. unfold sess_req. rewrite Hal. cbn.
+  destruct (negb (is_some (sc_perr (scalls st c)))); [|congruence].
+  unfold handle_send.
+  destruct (m_ver m) eqn:Ev; cbn; [|unfold fail, put_scall; cbn; congruence].
+  destruct (Nat.eqb_spec (m_from m) (sc_src (scalls st c))); cbn; [|unfold fail, put_scall; cbn; congruence].
+  destruct (req_gate c seq st) as [| |d'] eqn:Eg; try (unfold fail, put_scall; cbn; congruence).
+  destruct (PresS.gate_go _ _ _ _ Eg) as (Hep & Hown & Hpar).
+  destruct (PresS.partner_facts st c d' H Hal Hpar) as (Hda & Hds & Hdi & Hsd & Hds' & Hdc).
+  unfold wake_sess, put_box. cbn. unfold upd. destruct (Nat.eqb_spec d d'); [subst d'|congruence].
+  cbn. intros _. unfold epoch_of. repeat split; auto; congruence.
+Qed.
+
+(* C22: the last announcement of both attached peers is the current epoch at quiescence *)
+Lemma told_at_quiescence st s a : Inv st -> quiescent st ->
+  forall b, side (ses st s) b = Some a ->
+  last_open (sc_out (scalls st a)) =
+    match side (ses st s) (negb b) with Some _ => Some (s_epoch (ses st s)) | None => None end.
+Proof.
+  intros H Q b Hs.
+  destruct (iB2 _ H _ _ _ Hs) as (Hal & Hss & Hia).
+  destruct (Q a) as [_ Qs]. unfold squiet in Qs.
+  destruct (sc_st (scalls st a)) eqn:Est; try discriminate; try contradiction.
+  destruct Qs as [Qw _].
+  destruct (iD1 _ H a Est Qw) as [_ Hp]. rewrite <- (iD2 _ H a), Hp.
+  unfold cur_open. rewrite Hss, Hia. reflexivity.
+Qed.
+
+(* C22: a stale request is never dropped silently: when the relay drops a
+   request of a running call as stale, either an announcement to that call is
+   pending (its write loop has been woken), or the call has already been told
+   the state the request is stale against *)
+Lemma stale_drop_not_silent st c : Inv st -> sc_st (scalls st c) = Running ->
+  swoken st c = true \/
+  (side (ses st (sc_s (scalls st c))) (sc_isA (scalls st c)) = Some c /\
+   last_open (sc_out (scalls st c)) = cur_open (ses st) (scalls st) c).
+Proof.
+  intros H Hr. destruct (swoken st c) eqn:Ew; auto. right.
+  destruct (iD1 _ H c Hr Ew) as [X Y]. split; auto. rewrite <- (iD2 _ H c). exact Y.
+Qed.
+
+(* C22: a message waiting in the mailbox of the registered call was submitted in the current epoch *)
+Lemma pending_is_current_epoch st c m : Inv st ->
+  side (ses st (sc_s (scalls st c))) (sc_isA (scalls st c)) = Some c ->
+  mb_recv (sbox st c) = Some m -> mb_gep (sbox st c) = s_epoch (ses st (sc_s (scalls st c))).
+Proof. intros H. apply (iD5 _ H). Qed.
+
+(* a RecvMsg emitted by a pass of the write loop is the mailbox content, taken
+   while the call is registered and the partner attached *)
+Lemma iter_delivers st c m : 
+  In (SRecv m) (sc_out (scalls (sess_iter c st) c)) -> ~ In (SRecv m) (sc_out (scalls st c)) ->
+  mb_recv (sbox st c) = Some m /\
+  side (ses st (sc_s (scalls st c))) (sc_isA (scalls st c)) = Some c /\
+  side (ses st (sc_s (scalls st c))) (negb (sc_isA (scalls st c))) <> None.
+Proof.
+  unfold sess_iter.
+  destruct (is_running (sc_st (scalls st c)) && swoken st c); [|tauto].
+  destruct (onat_eqb_spec (side (ses st (sc_s (scalls st c))) (sc_isA (scalls st c))) (Some c)) as [Ho|Ho]; cbn.
+  - destruct (side (ses st (sc_s (scalls st c))) (negb (sc_isA (scalls st c)))) as [d|]; cbn.
+    + destruct (mb_recv (sbox st c)) as [m'|]; unfold put_scall, put_box, put_swoken, wake_sess; cbn;
+        unfold upd; rewrite Nat.eqb_refl; cbn; rewrite !in_app_iff; intros Hin Hn.
+      * destruct Hin as [X|[X|[X|[X|X]]]]; try tauto.
+        -- destruct (onat_eqb _ _); cbn in X; intuition discriminate.
+        -- destruct (mb_outAcked (sbox st c)); cbn in X; intuition discriminate.
+        -- destruct (mb_recvClear (sbox st c)); cbn in X; intuition discriminate.
+        -- cbn in X. destruct X as [X|[]]. inversion X; subst. repeat split; auto. discriminate.
+      * destruct Hin as [X|[X|[X|[X|X]]]]; try tauto.
+        -- destruct (onat_eqb _ _); cbn in X; intuition discriminate.
+        -- destruct (mb_outAcked (sbox st c)); cbn in X; intuition discriminate.
+        -- destruct (mb_recvClear (sbox st c)); cbn in X; intuition discriminate.
+        -- destruct X.
+    + unfold put_scall, put_swoken; cbn. unfold upd; rewrite Nat.eqb_refl; cbn. rewrite !in_app_iff.
+      intros [X|[X|X]] Hn; try tauto.
+      * destruct (onat_eqb _ _); cbn in X; intuition discriminate.
+      * destruct X.
+  - unfold put_scall, put_swoken; cbn. unfold upd; rewrite Nat.eqb_refl; cbn. tauto.
+Qed.
+
+(* C24 *)
+Lemma cur_sess_is_cur st q p : cur_sess st q p = cur (sessions st) (ses st) q p.
+Proof. reflexivity. Qed.
+
+Lemma listener_set st c : Inv st -> lc_st (lcalls st c) = Running -> lwoken st c = false ->
+  peers st (lc_p (lcalls st c)) = Some (lc_t (lcalls st c)) /\
+  t_nonce (trk st (lc_t (lcalls st c))) = lc_n (lcalls st c) /\
+  forall q, In q (announced (lc_out (lcalls st c))) <-> cur_sess st q (lc_p (lcalls st c)) <> None.
+Proof.
+  intros H Hr Hw.
+  assert (Hal : alive (lc_st (lcalls st c)) = true) by (rewrite Hr; reflexivity).
+  destruct (iC5 _ H c Hr Hw) as [Hn Hset].
+  destruct (iC1 _ H c Hal) as (Ht & Ho & _).
+  destruct (iC2 _ H c Hal (eq_sym Hn)) as [_ Hl].
+  assert (Hp : peers st (lc_p (lcalls st c)) = Some (lc_t (lcalls st c))).
+  { rewrite <- Ho.
+    destruct (onat_eqb_spec (peers st (t_owner (trk st (lc_t (lcalls st c))))) (Some (lc_t (lcalls st c)))); auto.
+    destruct (iA2 _ H _ n). congruence. }
+  repeat split; auto.
+  - rewrite <- (iC6 _ H c). intros Hq. apply Hset in Hq. destruct (iB3 _ H _ _ _ Hp Hq). assumption.
+  - intros Hc. rewrite <- (iC6 _ H c). apply Hset.
+    unfold cur_sess in Hc. destruct (sessions st (mkkey q (lc_p (lcalls st c)))) as [s|] eqn:Es; try congruence.
+    destruct (side (ses st s) (is_a q (lc_p (lcalls st c)))) as [c'|] eqn:Esd; try congruence.
+    destruct (iB2 _ H _ _ _ Esd) as (Ha' & Hs' & Hi').
+    destruct (iB1 _ H c' Ha') as (_ & Hk & Hia & Hne & _ & Hot).
+    destruct (iA3 _ H _ _ Es) as [_ Hk'].
+    assert (Hqp : q <> lc_p (lcalls st c)).
+    { intros E. rewrite E in *. rewrite Hs', Hk' in Hk. unfold mkkey in Hk.
+      destruct (Nat.ltb_spec (lc_p (lcalls st c)) (lc_p (lcalls st c))); try lia.
+      destruct (Nat.ltb_spec (sc_src (scalls st c')) (sc_dst (scalls st c'))); inversion Hk; lia. }
+    rewrite Hs', Hk' in Hk. rewrite Hi' in Hia.
+    destruct (same_side _ _ _ _ Hqp Hne Hk Hia) as [E1 E2].
+    pose proof (iB4 _ H _ _ _ Esd) as Hin. rewrite <- E1 in Hin.
+    assert (Hpd : peers st (t_owner (trk st (sc_dt (scalls st c')))) = Some (sc_dt (scalls st c'))).
+    { destruct (onat_eqb_spec (peers st (t_owner (trk st (sc_dt (scalls st c'))))) (Some (sc_dt (scalls st c')))); auto.
+      destruct (iA2 _ H _ n) as [X _]. rewrite X in Hin. destruct Hin. }
+    rewrite Hot, <- E2, Hp in Hpd. inversion Hpd as [Ht']. rewrite Ht'. assumption.
+Qed.
+
+(* C25 *)
+Definition listen_current (st : state) (c : nat) : Prop :=
+  alive (lc_st (lcalls st c)) = true /\ lc_n (lcalls st c) = t_nonce (trk st (lc_t (lcalls st c))).
+
+Lemma listen_current_holds_tracker st c : Inv st -> listen_current st c ->
+  peers st (lc_p (lcalls st c)) = Some (lc_t (lcalls st c)) /\ t_listening (trk st (lc_t (lcalls st c))) = true.
+Proof.
+  intros H [Hal Hn]. destruct (iC2 _ H c Hal Hn) as [_ Hl]. destruct (iC1 _ H c Hal) as (_ & Ho & _).
+  split; auto. rewrite <- Ho.
+  destruct (onat_eqb_spec (peers st (t_owner (trk st (lc_t (lcalls st c))))) (Some (lc_t (lcalls st c)))); auto.
+  destruct (iA2 _ H _ n). congruence.
+Qed.
+
+Lemma one_listen st c1 c2 : Inv st -> listen_current st c1 -> listen_current st c2 ->
+  lc_p (lcalls st c1) = lc_p (lcalls st c2) -> c1 = c2.
+Proof.
+  intros H H1 H2 Hp.
+  destruct (listen_current_holds_tracker _ _ H H1) as [P1 _].
+  destruct (listen_current_holds_tracker _ _ H H2) as [P2 _].
+  rewrite Hp, P2 in P1. inversion P1 as [Ht].
+  destruct H1 as [A1' N1], H2 as [A2' N2].
+  destruct (iC2 _ H c1 A1' N1) as [L1 _]. destruct (iC2 _ H c2 A2' N2) as [L2 _]. congruence.
+Qed.
+
+(* a listen call that has been replaced is woken, its next pass returns the
+   replaced error and its cleanup leaves the relay maps alone *)
+Lemma replaced_listen st c : Inv st -> lc_st (lcalls st c) = Running ->
+  lc_n (lcalls st c) <> t_nonce (trk st (lc_t (lcalls st c))) ->
+  lwoken st c = true /\
+  forall w u, let st1 := listen_iter c w u st in
+    lc_st (lcalls st1 c) = Ending EReplaced /\
+    let st2 := listen_end c st1 in
+    lc_st (lcalls st2 c) = Ended EReplaced /\ peers st2 = peers st /\ trk st2 = trk st.
+Proof.
+  intros H Hr Hn.
+  assert (Hw : lwoken st c = true).
+  { destruct (lwoken st c) eqn:E; auto. destruct (iC5 _ H c Hr E). congruence. }
+  assert (Hneq : (t_nonce (trk st (lc_t (lcalls st c))) =? lc_n (lcalls st c)) = false).
+  { apply Nat.eqb_neq. congruence. }
+  split; auto. intros w u. unfold listen_iter. rewrite Hr, Hw, Hneq. cbn.
+  unfold put_lcall; cbn. unfold upd at 1. rewrite Nat.eqb_refl. cbn. split; auto.
+  unfold listen_end; cbn. unfold upd at 1 2 3 4 5 6 7 8. rewrite !Nat.eqb_refl. cbn.
+  rewrite Hneq, andb_false_r. unfold put_lcall; cbn. unfold upd. rewrite Nat.eqb_refl. cbn.
+  rewrite ?Hneq, ?andb_false_r; cbn; auto.
+Qed.
+
+Definition sess_current (st : state) (c : nat) : Prop :=
+  side (ses st (sc_s (scalls st c))) (sc_isA (scalls st c)) = Some c.
+
+Lemma one_session st c1 c2 : Inv st -> sess_current st c1 -> sess_current st c2 ->
+  sc_src (scalls st c1) = sc_src (scalls st c2) -> sc_dst (scalls st c1) = sc_dst (scalls st c2) -> c1 = c2.
+Proof.
+  unfold sess_current. intros H H1 H2 Es Ed.
+  destruct (iB2 _ H _ _ _ H1) as (A1' & _ & _). destruct (iB2 _ H _ _ _ H2) as (A2' & _ & _).
+  destruct (iB1 _ H c1 A1') as (_ & K1 & I1 & _). destruct (iB1 _ H c2 A2') as (_ & K2 & I2 & _).
+  pose proof (iA4 _ H _ _ _ H1) as M1. pose proof (iA4 _ H _ _ _ H2) as M2.
+  rewrite K1 in M1. rewrite K2 in M2. rewrite Es, Ed, M2 in M1. inversion M1 as [Hs].
+  rewrite <- Hs, I1, Es, Ed, <- I2, H2 in H1. congruence.
+Qed.
+
+Lemma replaced_session st c : Inv st -> sc_st (scalls st c) = Running -> ~ sess_current st c ->
+  swoken st c = true /\
+  let st1 := sess_iter c st in
+  sc_st (scalls st1 c) = Ending EReplaced /\
+  let st2 := sess_end c false st1 in
+  sc_st (scalls st2 c) = Ended EReplaced /\ peers st2 = peers st /\ trk st2 = trk st /\
+  sessions st2 = sessions st /\ ses st2 = ses st /\ sbox st2 = sbox st.
+Proof.
+  unfold sess_current. intros H Hr Hn.
+  assert (Hw : swoken st c = true).
+  { destruct (swoken st c) eqn:E; auto. destruct (iD1 _ H c Hr E). contradiction. }
+  assert (Hno : onat_eqb (side (ses st (sc_s (scalls st c))) (sc_isA (scalls st c))) (Some c) = false).
+  { destruct (onat_eqb_spec (side (ses st (sc_s (scalls st c))) (sc_isA (scalls st c))) (Some c)); auto; contradiction. }
+  split; auto. unfold sess_iter. rewrite Hr, Hw, Hno. cbn.
+  unfold put_scall, put_swoken; cbn. unfold upd at 1. rewrite Nat.eqb_refl. cbn. split; auto.
+  unfold sess_end, end_error, sess_cleanup; cbn. unfold upd at 1. rewrite Nat.eqb_refl. cbn.
+  unfold upd at 1 2 3. rewrite !Nat.eqb_refl. cbn. rewrite ?Hno.
+  unfold put_scall; cbn. unfold upd. rewrite ?Nat.eqb_refl. cbn. rewrite ?Hno. cbn. auto 10.
+Qed.
+
+(* once all calls have ended the relay keeps no state *)
+Lemma no_leftover st : Inv st ->
+  (forall c, alive (lc_st (lcalls st c)) = false /\ alive (sc_st (scalls st c)) = false) ->
+  (forall p, peers st p = None) /\ (forall k, sessions st k = None).
+Proof.
+  intros H Hd. split.
+  - intros p. destruct (peers st p) as [t|] eqn:Ep; auto. exfalso.
+    destruct (iA6 _ H _ _ Ep) as [Hl|Hw].
+    + destruct (iC3 _ H t Hl) as [X _]. destruct (Hd (t_lcur (trk st t))). congruence.
+    + destruct (t_wants (trk st t)) as [|q l] eqn:Ew; try congruence.
+      destruct (iB3 _ H p t q Ep) as [_ Hc]; [rewrite Ew; left; reflexivity|].
+      unfold cur in Hc. destruct (sessions st (mkkey q p)) as [s|]; try congruence.
+      destruct (side (ses st s) (is_a q p)) as [c|] eqn:Es; try congruence.
+      destruct (iB2 _ H _ _ _ Es) as [X _]. destruct (Hd c). congruence.
+  - intros k. destruct (sessions st k) as [s|] eqn:Es; auto. exfalso.
+    destruct (iA5 _ H _ _ Es) as [X|X].
+    + destruct (s_a (ses st s)) as [c|] eqn:E; try congruence.
+      destruct (iB2 _ H s true c E) as [Y _]. destruct (Hd c). congruence.
+    + destruct (s_b (ses st s)) as [c|] eqn:E; try congruence.
+      destruct (iB2 _ H s false c E) as [Y _]. destruct (Hd c). congruence.
 Qed.
